@@ -43,6 +43,9 @@ impl<R: Read> ZipStreamReader<R> {
     pub fn visit<V: ZipStreamVisitor>(mut self, visitor: &mut V) -> ZipResult<()> {
         while let Some(mut file) = read_zipfile_from_stream(&mut self.0)? {
             visitor.visit_file(&mut file)?;
+            // Skip what the visitor left unread here rather than in `Drop`, which would have
+            // to swallow a failure of the underlying reader.
+            file.skip_remaining()?;
         }
 
         // `read_zipfile_from_stream` returned `None` because it read the signature of the first
